@@ -263,5 +263,6 @@ pub fn parts() -> Vec<Box<dyn PartDyn>> {
         enumerate: None,
         shrink_budget: 0,
         confirm_runs: 2,
+            fuzz: None,
     })]
 }
